@@ -1,7 +1,129 @@
-(* C20 property theorems only: each closed by `exact <lemma>` with Print Assumptions beneath. *)
-From Coq Require Import ZArith List Bool.
-Require Import MV.C20.Model MV.C20.Gen MV.C20.Run MV.C20.Proofs.
+(* C20 property theorems only: each closed by `exact <lemma>` with Print Assumptions beneath.
+   Vocabulary: Model.v (executable model of unionfind.py / priority_queue.py + heapq), Gen.v (comparator and
+   plumbing GENERATED from priority_queue.py), Spec.v (present, conn, uf_wf, uf_total, root_of, is_query),
+   Proofs_Heap.v (lt_ok, heap_ok), Proofs_PQ.v (qreach, pushed). `reach h` is the state after ANY list of
+   operations h from the empty structure. *)
+From Coq Require Import ZArith List Bool Permutation.
+Import ListNotations.
+Require Import MV.C20.Model MV.C20.Gen MV.C20.Run MV.C20.Spec.
+Require Import MV.C20.Proofs_Base MV.C20.Proofs_Heap MV.C20.Proofs_PQ MV.C20.Proofs_UF.
 
-Theorem C20_mem_add : forall s x, mem (add s x) x = true.
-Proof. exact mem_add. Qed.
-Print Assumptions C20_mem_add.
+(* 1. structural invariant along every history: array lengths agree, elements distinct, parents in range,
+      the parent forest is acyclic (find ends within its fuel at a root), n_comps = number of roots, _siz at a
+      root = size of its tree; no operation runs out of fuel and ValueError is raised exactly for absent
+      elements. *)
+Theorem C20_uf_invariant : forall h : list op, uf_wf (reach h) /\ uf_total (reach h).
+Proof. exact uf_invariant. Qed.
+Print Assumptions C20_uf_invariant.
+
+(* 2. refinement: `connected` answers True exactly when a chain of unions joins x and y (conn = least
+      equivalence on the present elements containing the united pairs), False exactly when both are present
+      and no chain joins them, ValueError exactly when one is absent; `x in uf` is presence; `find` returns
+      the index of an element of x's class, the same index for every element of that class. *)
+Theorem C20_uf_refines : forall (h : list op) (x y : Z),
+  let s := reach h in
+  (mem s x = true <-> present h x) /\
+  ((exists s', connected s x y = Ok (s', true)) <-> conn h x y) /\
+  ((exists s', connected s x y = Ok (s', false)) <-> present h x /\ present h y /\ ~ conn h x y) /\
+  (connected s x y = ValueError <-> ~ present h x \/ ~ present h y) /\
+  (forall s' i, find s x = Ok (s', i) ->
+      i < length (elts s) /\ conn h x (nth i (elts s) 0%Z) /\
+      forall y s'' j, conn h x y -> find s' y = Ok (s'', j) -> j = i).
+Proof. exact uf_refines. Qed.
+Print Assumptions C20_uf_refines.
+
+(* 3. queries (find, connected, component, roots, components, component_mapping, len, n_comps, in) change
+      nothing but the parent array, and not the partition it encodes. *)
+Theorem C20_uf_queries_pure : forall (h : list op) (o : op),
+  is_query o ->
+  let s := reach h in
+  let s' := apply s o in
+  elts s' = elts s /\ siz s' = siz s /\ ncomps s' = ncomps s /\
+  (forall i, i < length (elts s) -> root_of s' i = root_of s i) /\
+  (forall x y, same_comp s' x y = same_comp s x y) /\
+  (forall x y, conn (h ++ [o]) x y <-> conn h x y).
+Proof. exact uf_queries_pure. Qed.
+Print Assumptions C20_uf_queries_pure.
+
+(* 4. all views describe that one partition: the stored elements are exactly the present ones, each once;
+      component(x) is x's class; components() lists every element exactly once, n_comps non-empty lists, two
+      elements share a list iff connected; roots() has n_comps entries, one per class; component_mapping()
+      maps every element to its class; n_comps is the number of classes (a transversal of that size exists). *)
+Theorem C20_uf_views : forall h : list op,
+  let s := reach h in
+  (NoDup (elts s) /\ forall x, In x (elts s) <-> present h x) /\
+  (forall x s' l, component s x = Ok (s', l) -> NoDup l /\ forall y, In y l <-> conn h x y) /\
+  (forall s' cs, components s = Ok (s', cs) ->
+     Permutation (concat cs) (elts s) /\ length cs = ncomps s /\ (forall c, In c cs -> c <> []) /\
+     (forall x y, (exists c, In c cs /\ In x c /\ In y c) <-> conn h x y)) /\
+  (forall s' rts, roots s = Ok (s', rts) ->
+     NoDup rts /\ length rts = ncomps s /\
+     (forall rt, In rt rts -> rt < length (elts s) /\ root_of s' rt = rt) /\
+     let reps := map (fun rt => nth rt (elts s) 0%Z) rts in
+     NoDup reps /\ (forall x, present h x -> exists e, In e reps /\ conn h x e) /\
+     (forall e1 e2, In e1 reps -> In e2 reps -> conn h e1 e2 -> e1 = e2)) /\
+  (forall s' m, mapping s = Ok (s', m) ->
+     map fst m = elts s /\
+     forall x c, In (x, c) m -> NoDup c /\ forall y, In y c <-> conn h x y) /\
+  (exists reps, length reps = ncomps s /\ NoDup reps /\ (forall e, In e reps -> present h e) /\
+     (forall x, present h x -> exists e, In e reps /\ conn h x e) /\
+     (forall e1 e2, In e1 reps -> In e2 reps -> conn h e1 e2 -> e1 = e2)).
+Proof. exact uf_views. Qed.
+Print Assumptions C20_uf_views.
+
+(* 5. heapq, any comparator: push adds exactly the pushed item, pop removes exactly the item it hands out,
+      and fails (IndexError) exactly on the empty heap. *)
+Theorem C20_pq_permutation : forall (item : Type) (lt : item -> item -> bool) (dummy : item) (h : list item),
+  (forall x, Permutation (heappush item lt dummy h x) (x :: h)) /\
+  (forall x h', heappop item lt dummy h = Some (x, h') -> Permutation h (x :: h')) /\
+  (heappop item lt dummy h = None <-> h = []).
+Proof.
+  exact (fun item lt dummy h =>
+    conj (heappush_perm item lt dummy h)
+         (conj (heappop_perm item lt dummy h) (heappop_none item lt dummy h))).
+Qed.
+Print Assumptions C20_pq_permutation.
+
+(* 6. heapq, comparator a strict weak order (lt_ok: asymmetric, negation transitive): the heap order is
+      established by [], preserved by push and pop, and pop hands out a minimum. *)
+Theorem C20_pq_min : forall (item : Type) (lt : item -> item -> bool) (dummy : item),
+  lt_ok lt ->
+  heap_ok lt dummy [] /\
+  (forall h x, heap_ok lt dummy h -> heap_ok lt dummy (heappush item lt dummy h x)) /\
+  (forall h x h', heap_ok lt dummy h -> heappop item lt dummy h = Some (x, h') ->
+     heap_ok lt dummy h' /\ forall y, In y h -> lt y x = false).
+Proof.
+  exact (fun item lt dummy H =>
+    conj (heap_ok_nil item lt dummy)
+         (conj (heappush_ok item lt dummy H)
+               (fun h x h' Hh E => conj (heappop_ok item lt dummy H h x h' Hh E)
+                                        (heappop_min item lt dummy H h x h' Hh E)))).
+Qed.
+Print Assumptions C20_pq_min.
+
+(* 7. the comparator GENERATED from PriorityItem.__lt__ is such an order, and it orders by priority. *)
+Theorem C20_pq_comparator :
+  lt_ok item_lt /\ forall x y : item, item_lt y x = false -> (fst x <= fst y)%Z.
+Proof. exact (conj item_lt_ok item_lt_le). Qed.
+Print Assumptions C20_pq_comparator.
+
+(* 8. the queue of priority_queue.py (generated plumbing) over every history of push/pop/empty/front from the
+      empty queue: pending ++ handed out is exactly the multiset of pushed PriorityItem(x, w); pop/get hand
+      out a pending item of minimum priority and remove exactly it; IndexError and empty() exactly on the
+      empty queue; front is the minimum item pop would hand out. *)
+Theorem C20_pq_history : forall ops : list qop,
+  let d := fst (qreach ops) in
+  let out := snd (qreach ops) in
+  Permutation (d ++ out) (pushed ops) /\
+  (forall x w, Permutation (pq_push d x w) ((w, x) :: d)) /\
+  (forall it d', pq_pop d = Some (it, d') ->
+      Permutation d (it :: d') /\ (forall y, In y d -> (fst it <= fst y)%Z)) /\
+  (forall it d', pq_get d = Some (it, d') ->
+      Permutation d (it :: d') /\ (forall y, In y d -> (fst it <= fst y)%Z)) /\
+  (pq_pop d = None <-> d = []) /\
+  (pq_empty d = true <-> d = []) /\
+  (pq_front d = None <-> d = []) /\
+  (forall it, pq_front d = Some it -> In it d /\ forall y, In y d -> (fst it <= fst y)%Z) /\
+  (forall it d', pq_pop d = Some (it, d') -> pq_front d = Some it).
+Proof. exact pq_history. Qed.
+Print Assumptions C20_pq_history.
